@@ -150,7 +150,7 @@ PROPS = {
             "an independent brute-force oracle in the harness (flat cell set + the same neighbour lists) double-checks the same operations and is the only check of fill_holes"],
         "assumptions": COMMON_ASSUME + [
             "HEALPix neighbour geometry (cdshealpix) is a parameter of the model; space MOCs are exercised at depths 0-2 (12 / 48 / 192 cells), where the flat cell set is small enough to compare; fill_holes is oracle-only (test level)",
-            "tf_contracted = complement∘expanded∘complement is checked by evaluating the definition with the proved operators on every generated case (op tf_con_def), not proved in general"],
+            "tf_contracted = complement∘expanded∘complement is PROVED for every valid MOC (tf_contracted_dual, tf_contracted_sem); it is also evaluated on every generated case (op tf_con_def)"],
         "rule": "Time and Frequency x u16/u32/u64: EVERY MOC of the whole-domain universe at depth 2 (8 cells, 256 MOCs, both domain bounds reached) + samples at depth 3 and boundary-biased "
                 "random MOCs at all depths: expanded, contracted, and the definition not(expanded(not M)) evaluated by the model; space (Hpx u64, depths 0-2: sparse, dense, blobs around "
                 "base-cell corners and poles, empty, full): expanded, contracted, external/internal border, split with both connectivities (exact partition into connected components), "
